@@ -17,6 +17,9 @@ TLP = {
     "red": "marking-definition--5e57c739-391a-4eb3-b6be-7d15ca92d5ed",
 }
 TS = ["2016-01-01T00:00:00.000Z", "2017-02-03T04:05:06.000Z", "2018-11-12T13:14:15.123Z", "2020-06-30T23:59:59.999Z"]
+# timestamp texts with 0 / 1 / 3 / 6 / 7 fraction digits, whole seconds, a year below 1000
+TS_SHAPES = ["2019-01-01T00:00:00Z", "2019-01-01T00:00:00.5Z", "2019-01-01T00:00:00.250Z", "2019-01-01T00:00:00.123456Z",
+             "2019-01-01T00:00:00.1234567Z", "0999-12-31T23:59:59.000Z"]
 LATER = ["2025-01-01T00:00:00.000Z", "2026-02-05T05:05:05.500Z"]
 
 
@@ -25,12 +28,26 @@ class Ref:
         self.i = i
 
 
+class DT:
+    """a datetime value built by the caller (see c13_impl.build_dt); an immutable value for the model"""
+    def __init__(self, ymdhmsu, tz=None, fold=0, stix=False, precision=None):
+        self.d = {"ymdhmsu": list(ymdhmsu), "tz": tz, "fold": fold, "stix": stix, "precision": precision}
+
+    def text(self):
+        d = self.d
+        return "dt:%s|%s|%d|%s|%s" % ("-".join(map(str, d["ymdhmsu"])), d["tz"], d["fold"], d["stix"], d["precision"])
+
+
 # --------------------------------------------------------------------------
 # encodings
 
 def to_json(t):
     if isinstance(t, Ref):
         return {"$r": t.i}
+    if isinstance(t, DT):
+        return {"$dtz": t.d}
+    if isinstance(t, float):
+        return {"$f": repr(t)}
     if isinstance(t, dict):
         return {"$d": [[k, to_json(v)] for k, v in t.items()]}
     if isinstance(t, list):
@@ -45,6 +62,11 @@ def from_json(j):
             return Ref(j["$r"])
         if "$d" in j:
             return {k: from_json(v) for k, v in j["$d"]}
+        if "$dtz" in j:
+            d = j["$dtz"]
+            return DT(d["ymdhmsu"], d.get("tz"), d.get("fold", 0), d.get("stix", False), d.get("precision"))
+        if "$f" in j:
+            return float(j["$f"])
         raise ValueError("not modelled: %r" % (j,))
     if isinstance(j, list):
         return [from_json(x) for x in j]
@@ -68,6 +90,8 @@ def coq_atom(x):
 def to_coq(t):
     if isinstance(t, Ref):
         return "(XR %d)" % t.i
+    if isinstance(t, DT):
+        return "(XA (AStr %s))" % common.coq_ustr(t.text())
     if isinstance(t, dict):
         return "(XD %s)" % common.coq_list(["(%s, %s)" % (common.coq_ustr(k), to_coq(v)) for k, v in t.items()])
     if isinstance(t, list):
@@ -93,6 +117,8 @@ def op_to_coq(op):
             return "(OMk %s)" % to_coq(from_json(op["v"]))
         except (ValueError, TypeError):
             return None
+    if o == "bundle_dict":
+        return "(OMk %s)" % to_coq({"type": "bundle", "id": op["id"], "objects": Ref(op["arg"])})
     if o == "construct":
         return "(OConstruct %s %d)" % (us(op["cls"]), op["kw"])
     if o == "bundle":
@@ -177,6 +203,8 @@ def op_to_coq(op):
 
 
 def case_to_coq(case):
+    if case.get("nomodel"):
+        return None
     terms = [op_to_coq(op) for op in case["ops"]]
     if any(t is None for t in terms):
         return None
@@ -329,15 +357,40 @@ def sdo_kw(rng, ver, ty, full=False, markings=False):
     return kw
 
 
+# values of every kind a caller may put into a property the library stores as given (custom
+# properties, unknown-type dicts): numbers around the usual boundaries, datetimes (naive, UTC, fixed
+# offset, a real zone in the repeated DST hour with fold=1, the library's STIXdatetime), keys and
+# strings with awkward characters (never "/", ";", "#", "|": the harness's own separators)
+VALUE_POOL = [
+    ("x_negzero", -0.0), ("x_intfloat", 7.0), ("x_big53", 2 ** 53 + 1), ("x_e21", 10 ** 21), ("x_huge", 7 * 10 ** 400 + 3),
+    ("x_neg", -1), ("x_float", 0.1), ("x_exp", 1e300),
+    ("x_dt_naive", DT((2021, 11, 7, 1, 30, 0, 0))),
+    ("x_dt_utc", DT((2021, 11, 7, 1, 30, 0, 123456), "UTC")),
+    ("x_dt_fixed", DT((2021, 11, 7, 1, 30, 0, 0), "fixed:330")),
+    ("x_dt_fold", DT((2021, 11, 7, 1, 30, 0, 0), "America/New_York", 1)),
+    ("x_sdt_fold", DT((2021, 11, 7, 1, 30, 0, 500000), "America/New_York", 1, True, "millisecond")),
+    ("x_sdt_utc", DT((2016, 1, 1, 0, 0, 0, 0), "UTC", 0, True, "second")),
+    ("x_sdt_eu", DT((2021, 10, 31, 2, 30, 0, 0), "Europe/Berlin", 1, True, None)),
+    ("x_keys", {'k"q': 1, "k\\b": [2], "k\x7f": {"z": 3}, "k\U0001F600": "v", "K-UP_down--x": [], "": "empty key"}),
+    ("x_text_shapes", ["", "a" * 255, "b" * 256, "\x7f", "\U0001F600", 'q"uote', "back\\slash", "2016-01-01T00:00:00.1234567Z"]),
+]
+
+
 def custom_props_tree(rng):
     """a `custom_properties` dict a caller keeps and re-uses (a template): values the constructor
     skips (None, []), falsy values it keeps (0, '', False, {}), and nested containers"""
     pool = [("x_none", None), ("x_empty_list", []), ("x_empty_dict", {}), ("x_zero", 0), ("x_blank", ""),
             ("x_false", False), ("x_nested", {"a": [1, {"b": [2]}]}), ("x_list", ["p", ["q"]]), ("x_text", "t")]
+    pool += rng.sample(VALUE_POOL, 3)
     picks = rng.sample(pool, rng.randint(2, 6))
     if rng.random() < 0.7 and not any(k in ("x_none", "x_empty_list") for k, _ in picks):
         picks.append(rng.choice(pool[:2]))
-    return dict(picks)
+    out = dict(picks)
+    if rng.random() < 0.3:
+        # the same sub-structure at top level, as a list element, as a member value and nested
+        sub = {"s": [1, {"t": ["u"]}]}
+        out.update({"x_pos_top": sub, "x_pos_elem": ["e", sub], "x_pos_member": {"m": sub}, "x_pos_deep": {"a": [{"b": sub}]}})
+    return out
 
 
 def with_skipped(rng, kw):
@@ -472,6 +525,12 @@ def sc_sdo(rng):
         b.add(op="construct", cls=cls_name(ver, CLS[ty2]), kw=b.mk(dict(sdo_kw(rng, ver, ty2), custom_properties=Ref(cp))))
     full = b.mk(share_members(b, fullt))
     p1 = b.add(op="parse", arg=full, version=rng.choice([None, ver]), **({"allow_custom": True} if "custom_properties" in fullt else {}))
+    if rng.random() < 0.4:
+        # the same value asked again with other flags (allow_custom, version, text / file form), after a call that fails
+        b.add(op="parse", arg=full, version="2.0" if ver == "2.1" else "2.1")          # usually refused
+        b.add(op="parse", arg=full, version=ver, allow_custom=True)
+        b.add(op=rng.choice(["parse_text", "parse_file"]), arg=full, version=rng.choice([None, ver]), allow_custom=True)
+        b.add(op="parse", arg=full, version=None, **({"allow_custom": True} if "custom_properties" in fullt else {}))
     r = rng.random()
     if r < 0.4:
         nk = {"labels": Ref(b.mk(["n1", "n2"]))} if ty == "identity" or ver == "2.1" else {"description": "new"}
@@ -666,15 +725,29 @@ def sc_store_get(rng):
     ty = rng.choice(["identity", "malware"])
     t = sdo_kw(rng, ver, ty, full=True)
     d = b.mk(share_members(b, t))
-    unk = {"type": "x-verif-thing", "id": new_id(rng, "x-verif-thing"), "created": TS[0], "modified": TS[1],
+    unk = {"type": "x-verif-thing", "id": new_id(rng, "x-verif-thing"), "created": TS[0], "modified": rng.choice(TS[1:] + TS_SHAPES),
            "payload": {"k": [1, 2, 3]}}
+    unk.update(dict(rng.sample(VALUE_POOL, 2)))
     if ver == "2.1":
         unk["spec_version"] = "2.1"
     ud = b.mk(unk)
     o = b.add(op="construct", cls=cls_name(ver, CLS[ty]), kw=b.mk(sdo_kw(rng, ver, ty)))
     st = b.add(op="store_new", kind="memory", arg=None)
     b.add(op="store_add", store=st, arg=d)
-    b.add(op="store_add", store=st, arg=ud)
+    form = rng.randrange(5)
+    if form == 0:
+        b.add(op="store_add", store=st, arg=ud)                                   # the dict itself
+    elif form == 1:
+        b.add(op="store_add", store=st, arg=b.mk([Ref(ud), Ref(d)]))               # in a list
+    elif form == 2:
+        bd = b.add(op="bundle_dict", id=new_id(rng, "bundle"), arg=b.mk([Ref(ud)]))   # in a bundle given as a dict
+        b.add(op="store_add", store=st, arg=bd)
+    elif form == 3:
+        bo = b.add(op="bundle", cls=cls_name(ver, "Bundle"), args=[ud], allow_custom=True)   # in an existing Bundle
+        b.add(op="store_add", store=st, arg=bo)
+    else:
+        b.add(op="store_new", kind="memory", arg=b.mk([Ref(ud)]))                 # through the constructor
+        b.add(op="store_add", store=st, arg=ud)
     b.add(op="store_add", store=st, arg=o)
     b.add(op="store_get", store=st, id=t["id"])
     b.add(op="store_get", store=st, id=unk["id"])
@@ -751,6 +824,55 @@ def sc_refusals(rng):
     if rng.random() < 0.5:
         b.add(op="deepcopy", arg=o)
     return b.case()
+
+
+SIZES = [0, 1, 2, 9, 10, 11, 63, 64, 65, 100, 101, 255, 256]
+
+
+def nest(depth, leaf):
+    t = leaf
+    for i in range(depth):
+        t = {"d": t} if i % 2 else [t]
+    return t
+
+
+def sc_sizes(rng):
+    """containers with 0, 1, 2, 9..11, 63..65, 100, 101, 255, 256 members and that many nesting levels,
+    as list / dict properties, custom properties and unknown-type dict members; nesting beyond the
+    model's fuel (40 levels) is snapshot-tested only"""
+    b = B(rng, "sizes")
+    ver = pick_ver(rng)
+    n = rng.choice(SIZES)
+    depth = rng.choice(SIZES)
+    deep = depth > 30
+    kw = sdo_kw(rng, ver, "identity", full=True)
+    kw["labels"] = ["l%d" % i for i in range(n)]
+    kw["external_references"] = [{"source_name": "s%d" % i, "external_id": str(i)} for i in range(min(n, 70))]
+    kw["x_wide"] = {"k%03d" % i: [i] for i in range(n)}
+    kw["x_deep"] = nest(depth, ["leaf"])
+    kw["x_strs"] = ["", "a", "b" * 255, "c" * 256]
+    d = b.mk(share_members(b, kw, 0.3))
+    o = b.add(op="parse", arg=d, version=ver, allow_custom=True)
+    b.add(op="parse", arg=d, version=ver, allow_custom=True)
+    r = rng.random()
+    if r < 0.35:
+        b.add(op="deepcopy", arg=rng.choice([o, d]))
+    elif r < 0.7:
+        b.add(op="new_version", arg=rng.choice([o, d]), kw=b.mk({"x_wide": Ref(b.mk({"k": list(range(n))}))}))
+    else:
+        st = b.add(op="store_new", kind="memory", arg=b.mk([Ref(d)]))
+        b.add(op="store_add", store=st, arg=o)
+    unk = {"type": "x-verif-thing", "id": new_id(rng, "x-verif-thing"), "created": TS[0], "modified": TS[1],
+           "wide": list(range(n)), "deep": nest(depth, {"x": [1]})}
+    if ver == "2.1":
+        unk["spec_version"] = "2.1"
+    ud = b.mk(unk)
+    b.add(op="parse", arg=ud, allow_custom=True, version=ver)
+    b.add(op="deepcopy", arg=ud)
+    c = b.case()
+    if deep:
+        c["nomodel"] = True
+    return c
 
 
 MODELLED = [(sc_extensions, 5), (sc_observed, 4), (sc_sdo, 4), (sc_markings, 5), (sc_api_markings, 5), (sc_bundle_store, 3),
@@ -920,6 +1042,14 @@ def sc_custom_types(rng):
         objs.append(b.add(op="construct", cls="custom." + n, kw=k, allow_custom=True))
         if rng.random() < 0.4:
             b.add(op="construct", cls="custom." + n, kw=k, allow_custom=True)      # the same inputs again
+    if rng.random() < 0.5:
+        vk = b.mk({"name": "v%d" % rng.randint(0, 9), "created": TS[0], "modified": TS[1],
+                   "items": Ref(b.mk(["i1"]))})
+        vo = b.add(op="construct", cls="custom.VerifVSco", kw=vk, allow_custom=True)
+        nk = b.mk({"items": Ref(b.mk(["j1", "j2"]))})
+        b.add(op="new_version", arg=vo, kw=nk)
+        b.add(op="new_version", arg=vo, kw=nk, method=True)
+        objs.append(vo)
     n = rng.choice(names)
     ty, _ = CUSTOM_EXT[n]
     full = {"type": ty, "spec_version": "2.1", "id": new_id(rng, ty), "name": "p", "extensions": Ref(e)}
@@ -947,9 +1077,10 @@ def sc_custom_types(rng):
 
 SNAPSHOT_ONLY = [(sc_api, 3), (sc_stores, 2)]
 MODELLED.append((sc_custom_types, 3))
+MODELLED.append((sc_sizes, 2))
 
 
-KIND_OF = {sc_custom_types: "custom-types", sc_api_markings: "api-markings", sc_extensions: "extensions", sc_observed: "observed-data", sc_sdo: "sdo", sc_markings: "markings",
+KIND_OF = {sc_sizes: "sizes", sc_custom_types: "custom-types", sc_api_markings: "api-markings", sc_extensions: "extensions", sc_observed: "observed-data", sc_sdo: "sdo", sc_markings: "markings",
            sc_bundle_store: "bundle-store", sc_store_get: "store-get", sc_factory: "factory", sc_refusals: "refusals",
            sc_api: "api", sc_stores: "stores"}
 
